@@ -138,6 +138,59 @@ def loopCtxError (reportsCtxErr : Bool) (c : CtxEnd) : GoErr :=
 def ctxEndThrough (hasUnwrap reportsCtxErr : Bool) (levels : List Level) (endAt : Nat) (c : CtxEnd) : GoErr :=
   graphFailThrough hasUnwrap (levels.take endAt) (loopCtxError reportsCtxErr c)
 
+/-! ### what the caller can read: the error's text; observers on the way out
+
+  `wrapGraphNodeError` does not build a new error for every nesting level: it finds the one
+  `*internalError` with `errors.As`, prepends the key IN PLACE and returns that same object.  The
+  node path a caller of the public API sees is the one `Error()` prints (`node path: [a, b, c]`).
+  On its way out the error may be read by anybody: an `OnError` callback handler that logs
+  `err.Error()`, a lambda / tool that runs a compiled graph and wraps its error with
+  `fmt.Errorf("…: %w", err)` (which formats the text).  `Hop` is one thing that happens to the error
+  between the failing body and the caller; `memoises` is the source fact "`Error()` keeps the text
+  it rendered first" (false: the text is a function of the current fields). -/
+
+inductive Hop where
+  /-- the step loop of one more enclosing graph: `wrapGraphNodeError(key, err)` -/
+  | wrap (key : Key)
+  /-- somebody calls `err.Error()` -/
+  | observe
+  /-- `fmt.Errorf("…: %w", err)`: reads the text, adds a `%w` layer -/
+  | rewrap
+  deriving Repr, DecidableEq
+
+/-- the travelling error: its `Unwrap` chain, and the text the one `*internalError` in it has
+    memoised (as the path that text names), if any -/
+structure ErrSt where
+  err : GoErr
+  cache : Option (List Key)
+  deriving Repr
+
+def observeSt (memoises : Bool) (st : ErrSt) : ErrSt :=
+  if memoises && (asInternal st.err).isSome && st.cache.isNone then { st with cache := some (nodePath st.err) } else st
+
+def hop (hasUnwrap memoises : Bool) (st : ErrSt) : Hop → ErrSt
+  | .wrap k =>
+    -- an internal error already in the chain is the object that is returned (with its memo);
+    -- otherwise a fresh object
+    { err := wrapNode hasUnwrap k st.err, cache := if (asInternal st.err).isSome then st.cache else none }
+  | .observe => observeSt memoises st
+  | .rewrap => let st' := observeSt memoises st; { st' with err := .wrapf st'.err }
+
+/-- the error the caller gets when the body fails with `e`; hops innermost first -/
+def travel (hasUnwrap memoises : Bool) (hops : List Hop) (e : GoErr) : ErrSt :=
+  hops.foldl (hop hasUnwrap memoises) { err := e, cache := none }
+
+/-- the node path the text of the error names -/
+def textPath (st : ErrSt) : List Key :=
+  match st.cache with
+  | some p => p
+  | none => nodePath st.err
+
+def hopKeys : List Hop → List Key
+  | [] => []
+  | .wrap k :: r => k :: hopKeys r
+  | _ :: r => hopKeys r
+
 /-- What a user node body may return: an error that is not itself framework-made. -/
 def userErr : GoErr → Bool
   | .leaf _ => true
